@@ -81,4 +81,9 @@ CHECKS = {
         technique='Hypothesis-generated builder specs x trials vs expectation computed from the spec alone (active set, key set, index order, value, exact Python type)',
         text='Builder specs (all kinds, auto_cast on/off/default, boolean feasible subsets, gapped and unsorted indexed name[i] families, conditional depth <= 3, shared child names, hostile names) x valid / unknown-parameter / inactive-child / incomplete trials. Every read through StudyConfig.trial_parameters (config built directly, via from_problem, or re-read through to_proto/from_proto) and through clients.Trial.parameters on RAM and SQL servicers (trials stored by add_trial, request, raw CreateTrial or suggest; read from the returned handle, get_trial, trials() iteration) is compared with the expectation: only active parameters, bool / int / float / str exactly as declared, indexed families grouped into one list in index order, unknown or inactive parameters reported as ValueError.',
         note='in-process servicer only (no gRPC transport); INTEGER parameters: any integral int or float accepted (the statement does not demand int)'),
+    'C20': dict(
+        category=EXPL,
+        technique='exhaustive base-experimenter enumeration + Hypothesis-generated wrapper stacks; per-layer algebraic / metamorphic oracle through a pass-through probe',
+        text='400 exhaustively enumerated base configurations (24 BBOB functions x dims x construction paths, offset / log / reverse-log spaces, Branin, Hartmann 3/6, all 48 SimpleKD settings, DTLZ / WFG / ZDT / DH problems) are cross-checked by direct numpy / optproblems calls; Hypothesis draws 0-3-layer stacks of Shifting, SignFlip, Permuting, Discretizing, HyperCube, Normalizing, Noisy (10 noise types), Sparse, Switch, MultiObjective, Hashing- and ParamRegion-Infeasible wrappers with valid arguments and batches of 1..8 suggestions (with duplicates), plus SingleObjectiveExperimenterFactory configurations. At every layer boundary a transparent probe checks: every trial completed with all metrics of the problem statement or infeasible; parameters as suggested; problem statement by value; shift evaluates at x-s; sign flip negates objectives and goals and is an involution; permutation is the constructed bijection; discretize / hypercube embed into the inner space; normalising preserves order; seeded noise / infeasibility reproducible across fresh instances.',
+        note='trusts the base objective functions (cross-checked against direct calls), the HyperCube affine/log embedding to 1e-5, Permuting\'s private permutation dict, the factory composition order; hash verdicts only checked for determinism'),
 }
